@@ -1,6 +1,6 @@
 (** non-vacuity for C05: concrete, non-trivial instances meeting the hypotheses of the main theorems *)
 From Coq Require Import List NArith ZArith Bool String Ascii.
-From ApiFu Require Import Base.Sexp Val.Values Val.CoerceModel Val.CoerceSpec Val.CoerceProofs Val.FloatExact Val.CoerceReasons Val.CoerceRefine Val.CoerceRoutes Val.CoerceSameValue Val.CoerceTotal Val.CoerceComplete Val.BridgeC04 Val.BridgeC04Proofs.
+From ApiFu Require Import Base.Sexp Val.Values Val.CoerceModel Val.CoerceSpec Val.CoerceProofs Val.FloatExact Val.CoerceReasons Val.CoerceRefine Val.CoerceRoutes Val.CoerceSameValue Val.CoerceTotal Val.CoerceComplete Val.BridgeC04 Val.BridgeC04Proofs Val.Rfc3339.
 Import ListNotations.
 Open Scope string_scope.
 
@@ -226,3 +226,13 @@ Example document_bridge_computes :
   static_ok all_fixed Eint dtex true argdefs (one_var (StNamed (nm "Int")) None) args = false /\
   bridgeable Eint = true /\ no_float Eint = true.
 Proof. cbv zeta. repeat split; vm_compute; reflexivity. Qed.
+
+(** the DateTime model on the edges of time.Parse(RFC3339): one-digit hour and hour offset 24 / minute
+    offset 60 accepted, leap second / lower case / non-leap 29 February / two-digit month refused *)
+Example datetime_edges :
+  rfc3339_go (nm "2020-01-02T3:04:05Z") = true /\ rfc3339_go (nm "2020-01-02T3:4:05Z") = false /\
+  rfc3339_go (nm "2020-02-29T00:00:00Z") = true /\ rfc3339_go (nm "1900-02-29T00:00:00Z") = false /\
+  rfc3339_go (nm "2020-01-02T03:04:05+24:60") = true /\ rfc3339_go (nm "2020-01-02T03:04:05+25:00") = false /\
+  rfc3339_go (nm "2016-12-31T23:59:60Z") = false /\ rfc3339_go (nm "2020-01-02T03:04:05,5Z") = true /\
+  rfc3339_go (nm "2020-01-02t03:04:05z") = false /\ rfc3339_go (nm "2020-01-02T03:04:05.Z") = false.
+Proof. repeat split; vm_compute; reflexivity. Qed.
